@@ -20,9 +20,15 @@
        (C03_published_range);
      - errors() cannot fail when the collected ranges lie within the token vector (C03_ranges_inside).
      - exactly one fault => exactly one diagnostic (C03_single_fault_stmt/_program, C03_single_semantic_fault,
-       C03_statement_semantic).
-   NOT proved: C03_full_statement (below) for the declaration and missing-token faults, whose single-fault variants
-   are not defined in Coq. *)
+       C03_statement_semantic);
+     - exactly one DECLARATION fault (all ten declaration rules; Proofs/DeclFaults.v `decl_fault_program`, one
+       constructor per way to violate a rule, the table the rest is checked against stated explicitly) => `build`
+       returns the prescribed table and errors() exactly the prescribed diagnostics, on trees and from texts on
+       (C03_single_declaration_fault, C03_single_declaration_fault_text, C03_main_is_missing_text,
+       C03_main_is_not_a_procedure_text), hence the full statement of the property for the union of the semantic and
+       the declaration faults (C03_statement_declaration, C03_full_statement_declaration); one example per rule.
+   NOT proved: the statement for the missing-token SYNTAX faults, whose single-fault variants are not defined in Coq
+   (tools/splfaults.py validates them on generated programs). *)
 From Spl Require Import Spec.Typing Model.Errors Proofs.TypingProofs.
 Local Open Scope nat_scope.
 
@@ -398,10 +404,11 @@ Proof.
 Qed.
 Print Assumptions C03_statement_semantic.
 
-(* NOT PROVED - and `declaration_or_syntax_fault` is NOT DEFINED in Coq: the single-fault variants for the 10
-   declaration rules (a faulty declaration changes the table the rest of the program is checked against; the node-level
-   facts are C03_rule_* above) and for the missing-token syntax faults exist as tools/splfaults.py only, where the check
-   validates (2) for them on generated programs.  The full statement of the property is C03_statement_for of the union: *)
+(* The full statement of the property is C03_statement_for of the union of the semantic faults and the rest.  For the
+   10 declaration rules the single-fault variants are `declaration_fault` (end of this file), and C03_full_statement
+   declaration_fault is PROVED there (C03_full_statement_declaration).  NOT PROVED - and not defined in Coq: the
+   missing-token syntax faults; they exist as tools/splfaults.py only, where the check validates (2) for them on
+   generated programs. *)
 Definition C03_full_statement (declaration_or_syntax_fault : aprog -> emsg -> nat * nat -> Prop) : Prop :=
   C03_statement_for (fun p m r => semantic_fault p m r \/ declaration_or_syntax_fault p m r).
 
@@ -657,3 +664,269 @@ Proof.
   intros t Hr. apply (C03_text_no_false_positive ex_p ex_odd_gaps t ex_table); try (vm_compute; reflexivity); [exact Hr|].
   change (expected ex_p) with ex_tree. exact (conj C03_ex_wf C03_ex_wt).
 Qed.
+
+(* ------------------------------------------------------------------------------------------ *)
+(* DECLARATION FAULTS.  Proofs/DeclFaults.v (read its header) defines `decl_fault_program p G ys`: the tree p is valid SPL
+   except for ONE violation of ONE of the ten declaration rules, G is the table SPL prescribes for it, the rest of the
+   program is well-formed and well-typed with respect to G, ys are the prescribed diagnostics (absolute token ranges):
+     DF_decl          one faulty global declaration (`fault_gdecl`): UndefinedType / NotAType at the leaf of the type of a
+                      type declaration, parameter or local variable; RedeclarationAsType / AsProcedure / AsParameter /
+                      AsVariable; MustBeAReferenceParameter; MainIsNotAProcedure next to a procedure main: ONE diagnostic
+     DF_main_type     `type main = ...` and no procedure main: MainIsMissing AND MainIsNotAProcedure (DESIGN 10.3)
+     DF_main_missing  MainIsMissing alone: the EMPTY token range (0,0) = the empty byte range at the end of the first token
+     DF_main_params   MainMustNotHaveParameters, on main's name. *)
+From Spl Require Import Proofs.DeclFaults Proofs.DeclFaultsSound Proofs.DeclFaultsText.
+
+(* trees: build returns the prescribed table, analyze changes nothing, errors() collects exactly ys *)
+Theorem C03_single_declaration_fault : forall p G ys,
+  tree_clean p = true -> decl_fault_program p G ys ->
+  exists p1, build_res p = ROk (p1, G) /\ analyze_res p1 G = ROk p1 /\ tree_errors p1 = ys.
+Proof. exact decl_fault_sound. Qed.
+Print Assumptions C03_single_declaration_fault.
+
+(* from texts on (the lexer's output is a hypothesis): exactly the prescribed diagnostics, as byte ranges *)
+Theorem C03_single_declaration_fault_text : forall p t G ys,
+  prog_ok p = true -> decl_fault_program (expected p) G ys ->
+  forall toks, lex t = Some toks -> map tk toks = flatten p ++ [Eof] ->
+  forall rs, byte_ranges toks ys = ROk rs -> diagnostics t = Done rs.
+Proof. exact single_declaration_fault. Qed.
+Print Assumptions C03_single_declaration_fault_text.
+
+(* the byte range published for an EMPTY token range (i, i): empty, at the end of token i *)
+Theorem C03_published_empty_range : forall toks x tok,
+  e_s x = e_e x -> nth_error toks (e_e x) = Some tok -> byte_range toks x = ROk (te tok, te tok, e_m x).
+Proof. exact byte_range_empty. Qed.
+Print Assumptions C03_published_empty_range.
+
+(* MainIsMissing: one diagnostic with the empty range at the end of the text's first token (there always is one) *)
+Theorem C03_main_is_missing_text : forall p t G,
+  prog_ok p = true -> decl_fault_program (expected p) G [mkerr_t (0%nat, 0%nat) (EBuild MainIsMissing)] ->
+  forall toks tok0, lex t = Some toks -> map tk toks = flatten p ++ [Eof] -> nth_error toks 0 = Some tok0 ->
+  diagnostics t = Done [(te tok0, te tok0, EBuild MainIsMissing)].
+Proof. exact main_is_missing_text. Qed.
+Print Assumptions C03_main_is_missing_text.
+
+Theorem C03_first_token_exists : forall (p : aprog) (toks : list token),
+  map tk toks = flatten p ++ [Eof] -> exists tok0, nth_error toks 0 = Some tok0.
+Proof. exact first_token_exists. Qed.
+Print Assumptions C03_first_token_exists.
+
+(* `type main = ...` without a procedure main: both diagnostics, the second on the name *)
+Theorem C03_main_is_not_a_procedure_text : forall p t G y,
+  prog_ok p = true -> decl_fault_program (expected p) G [mkerr_t (0%nat, 0%nat) (EBuild MainIsMissing); y] ->
+  (e_s y < e_e y)%nat ->
+  forall toks tok0 first last, lex t = Some toks -> map tk toks = flatten p ++ [Eof] -> nth_error toks 0 = Some tok0 ->
+  nth_error toks (e_s y) = Some first -> nth_error toks (e_e y - 1)%nat = Some last ->
+  diagnostics t = Done [(te tok0, te tok0, EBuild MainIsMissing); (ts first, te last, e_m y)].
+Proof. exact main_is_not_a_procedure_text. Qed.
+Print Assumptions C03_main_is_not_a_procedure_text.
+
+(* the single-fault variants with exactly one diagnostic on a non-empty culprit: the 8 rules of DF_decl (including
+   MainIsNotAProcedure next to a procedure main) and MainMustNotHaveParameters *)
+Definition declaration_fault (p : aprog) (m : emsg) (r : nat * nat) : Prop :=
+  exists G y, decl_fault_program (expected p) G [y] /\ m = e_m y /\ r = (e_s y, e_e y) /\ (e_s y < e_e y)%nat.
+
+Theorem C03_statement_declaration : C03_statement_for declaration_fault.
+Proof.
+  split; [exact no_false_positive|].
+  intros p t toks m i j first last Hok Hlex Hk [G [y [Hf [-> [[= -> ->] Hlt]]]]] Hfirst Hlast.
+  eapply single_declaration_fault_one; eassumption.
+Qed.
+Print Assumptions C03_statement_declaration.
+
+(* the property for valid programs, single semantic faults and single declaration faults together *)
+Theorem C03_full_statement_declaration : C03_full_statement declaration_fault.
+Proof. exact (C03_full_statement_reduces _ C03_statement_declaration). Qed.
+Print Assumptions C03_full_statement_declaration.
+
+(* ---- non-vacuity: one program per declaration rule; the premises of its constructor hold, and the model computes
+   the prescribed diagnostics on a text of the program (evaluated, independently of the theorems) ---- *)
+Ltac bodies :=
+  unfold wt_bodies; cbn [pg_decls];
+  repeat (apply Forall_cons;
+          [split; [unfold has_entry; cbn [fst pd_name]; try exact I; vm_compute; discriminate
+                  | unfold wt_body; cbn [fst snd]; try exact I;
+                    let pe := fresh "pe" in let name := fresh "name" in
+                    let Hn := fresh "Hn" in let Hl := fresh "Hl" in let Hr := fresh "Hr" in
+                    intros pe [name [Hn [Hl Hr]]]; injection Hn as <-; vm_compute in Hl;
+                    first [discriminate Hl
+                          | injection Hl as <-;
+                            first [vm_compute in Hr; discriminate Hr | cbn [pe_local pd_stmts]; st]]] |]);
+  apply Forall_nil.
+Ltac main_fine := eexists; split; vm_compute; reflexivity.
+Ltac vc := vm_compute; reflexivity.
+Ltac df_rest := [> decls | vm_compute; reflexivity | main_fine | bodies | vm_compute; reflexivity].
+Ltac vd := vm_compute; discriminate.
+Definition p_main : adecl := DProc c0 c0 s_main c0 None c0 c0 [] SNil c0.
+Definition p_p : adecl := DProc c0 c0 s_p c0 None c0 c0 [] SNil c0.
+Definition s_foo := [102; 111; 111]. Definition s_y := [121].
+Definition vdecl (x : text) (t : atype) : avardecl := {| v_c1 := c0; v_c2 := c0; v_x := x; v_c3 := c0; v_t := t; v_c4 := c0 |}.
+Definition t_int := TName c0 s_int.
+
+(* UndefinedType, below an array type of a type declaration: v is entered as `array [3] of <unknown>` *)
+Definition d1 : aprog := {| a_decls := [DType c0 c0 s_v c0 (TArr c0 c0 c0 (LDec 3) c0 c0 (TName c0 s_foo)) c0; p_main]; a_ceof := c0 |}.
+Definition d1_tree : program := Eval vm_compute in expected d1.
+Definition d1_table : gtable := Eval vm_compute in table_of d1_tree.
+Example C03_ex_undefined_type : decl_fault_program d1_tree d1_table [er 8 9 (UndefinedType s_foo)].
+Proof.
+  eapply (DF_decl_eq _ _ []); [reflexivity | decls | ..].
+  { eapply FG_type_texpr; [reflexivity | vd | vc | reflexivity |]. apply FT_array. apply FT_undefined; [split; vc | vd]. }
+  all: df_rest.
+Qed.
+Example C03_ex_undefined_type_text :
+  diag_of "type v = array [3] of foo; proc main() { }" = Done [(22, 25, EBuild (UndefinedType s_foo))].
+Proof. vc. Qed.
+(* ... and through the theorem: the text is a layout of d1, so the diagnostics are the byte ranges of the prescribed ones *)
+Example C03_ex_undefined_type_instance :
+  diag_of "type v = array [3] of foo; proc main() { }" = Done [(22, 25, EBuild (UndefinedType s_foo))].
+Proof.
+  pose (toks := match lex (str "type v = array [3] of foo; proc main() { }") with Some l => l | None => [] end).
+  apply (C03_single_declaration_fault_text d1 _ d1_table _ eq_refl C03_ex_undefined_type toks); vc.
+Qed.
+
+(* NotAType, in a local variable: the type expression sees the variable x *)
+Definition d2 : aprog :=
+  {| a_decls := [DProc c0 c0 s_main c0 None c0 c0 [vdecl s_x t_int; vdecl s_y (TName c0 s_x)] SNil c0]; a_ceof := c0 |}.
+Definition d2_tree : program := Eval vm_compute in expected d2.
+Definition d2_table : gtable := Eval vm_compute in table_of d2_tree.
+Example C03_ex_not_a_type : decl_fault_program d2_tree d2_table [er 13 14 (NotAType s_x)].
+Proof.
+  eapply (DF_decl_eq _ _ []); [reflexivity | decls | ..].
+  { eapply FG_proc_var; [reflexivity | vc | cbn [pd_params]; pars |]. cbn [pd_vars]. eapply (FVS _ _ _ [_]); [vars | | vars].
+    eapply FVD_type; [|vc]. eapply FT_not_a_type; [solve_binds | intros te; discriminate | vd]. }
+  all: df_rest.
+Qed.
+Example C03_ex_not_a_type_text : diag_of "proc main() { var x: int; var y: x; }" = Done [(33, 34, EBuild (NotAType s_x))].
+Proof. vc. Qed.
+
+(* RedeclarationAsType *)
+Definition d3 : aprog := {| a_decls := [DType c0 c0 s_v c0 t_int c0; DType c0 c0 s_v c0 t_int c0; p_main]; a_ceof := c0 |}.
+Definition d3_tree : program := Eval vm_compute in expected d3.
+Definition d3_table : gtable := Eval vm_compute in table_of d3_tree.
+Example C03_ex_redeclaration_as_type : decl_fault_program d3_tree d3_table [er 6 7 (RedeclarationAsType s_v)].
+Proof.
+  eapply (DF_decl_eq _ _ [_]); [reflexivity | decls | ..].
+  { eapply FG_type_redeclared; [reflexivity | vd | vc | reflexivity | den | vd]. }
+  all: df_rest.
+Qed.
+Example C03_ex_redeclaration_as_type_text :
+  diag_of "type v = int; type v = int; proc main() { }" = Done [(19, 20, EBuild (RedeclarationAsType s_v))].
+Proof. vc. Qed.
+
+(* MustBeAReferenceParameter *)
+Definition d4 : aprog :=
+  {| a_decls := [DProc c0 c0 s_p c0 (Some (PVal c0 s_a c0 (TArr c0 c0 c0 (LDec 2) c0 c0 t_int), [])) c0 c0 [] SNil c0; p_main];
+     a_ceof := c0 |}.
+Definition d4_tree : program := Eval vm_compute in expected d4.
+Definition d4_table : gtable := Eval vm_compute in table_of d4_tree.
+Example C03_ex_must_be_a_reference_parameter : decl_fault_program d4_tree d4_table [er 3 4 (MustBeAReferenceParameter s_a)].
+Proof.
+  eapply (DF_decl_eq _ _ []); [reflexivity | decls | ..].
+  { eapply FG_proc_param; [reflexivity | vc | | cbn [pd_vars]; vars]. cbn [pd_params]. eapply (FPS _ _ _ []); [pars | | pars].
+    eapply FP_must_be_reference; [den | eexists; eexists; eexists; reflexivity | vc | vd]. }
+  all: df_rest.
+Qed.
+Example C03_ex_must_be_a_reference_parameter_text :
+  diag_of "proc p(a: array [2] of int) { } proc main() { }" = Done [(7, 8, EBuild (MustBeAReferenceParameter s_a))].
+Proof. vc. Qed.
+
+(* RedeclarationAsProcedure *)
+Definition d5 : aprog := {| a_decls := [p_p; p_p; p_main]; a_ceof := c0 |}.
+Definition d5_tree : program := Eval vm_compute in expected d5.
+Definition d5_table : gtable := Eval vm_compute in table_of d5_tree.
+Example C03_ex_redeclaration_as_procedure : decl_fault_program d5_tree d5_table [er 7 8 (RedeclarationAsProcedure s_p)].
+Proof.
+  eapply (DF_decl_eq _ _ [_]); [reflexivity | decls | ..].
+  { eapply FG_proc_redeclared; [reflexivity | vc | cbn [pd_params]; pars | cbn [pd_vars]; vars | vd]. }
+  all: df_rest.
+Qed.
+Example C03_ex_redeclaration_as_procedure_text :
+  diag_of "proc p() { } proc p() { } proc main() { }" = Done [(18, 19, EBuild (RedeclarationAsProcedure s_p))].
+Proof. vc. Qed.
+
+(* RedeclarationAsParameter: the redeclared parameter still counts, the call passes two arguments *)
+Definition d6 : aprog :=
+  {| a_decls := [DProc c0 c0 s_p c0 (Some (PVal c0 s_a c0 t_int, [(c0, PVal c0 s_a c0 t_int)])) c0 c0 [] SNil c0;
+                 DProc c0 c0 s_main c0 None c0 c0 []
+                   (SCons (SCal c0 s_p c0 (Some (e_f (lit 1), [(c0, e_f (lit 2))])) c0 c0) SNil) c0];
+     a_ceof := c0 |}.
+Definition d6_tree : program := Eval vm_compute in expected d6.
+Definition d6_table : gtable := Eval vm_compute in table_of d6_tree.
+Example C03_ex_redeclaration_as_parameter : decl_fault_program d6_tree d6_table [er 7 8 (RedeclarationAsParameter s_a)].
+Proof.
+  eapply (DF_decl_eq _ _ []); [reflexivity | decls | ..].
+  { eapply FG_proc_param; [reflexivity | vc | | cbn [pd_vars]; vars]. cbn [pd_params]. eapply (FPS _ _ _ [_]); [pars | | pars].
+    eapply FP_redeclared; [den | no_array | vc | vd]. }
+  all: df_rest.
+Qed.
+Example C03_ex_redeclaration_as_parameter_text :
+  diag_of "proc p(a: int, a: int) { } proc main() { p(1, 2); }" = Done [(15, 16, EBuild (RedeclarationAsParameter s_a))].
+Proof. vc. Qed.
+
+(* RedeclarationAsVariable *)
+Definition d7 : aprog :=
+  {| a_decls := [DProc c0 c0 s_main c0 None c0 c0 [vdecl s_x t_int; vdecl s_x t_int] SNil c0]; a_ceof := c0 |}.
+Definition d7_tree : program := Eval vm_compute in expected d7.
+Definition d7_table : gtable := Eval vm_compute in table_of d7_tree.
+Example C03_ex_redeclaration_as_variable : decl_fault_program d7_tree d7_table [er 11 12 (RedeclarationAsVariable s_x)].
+Proof.
+  eapply (DF_decl_eq _ _ []); [reflexivity | decls | ..].
+  { eapply FG_proc_var; [reflexivity | vc | cbn [pd_params]; pars |]. cbn [pd_vars]. eapply (FVS _ _ _ [_]); [vars | | vars].
+    eapply FVD_redeclared; [den | vc | vd]. }
+  all: df_rest.
+Qed.
+Example C03_ex_redeclaration_as_variable_text :
+  diag_of "proc main() { var x: int; var x: int; }" = Done [(30, 31, EBuild (RedeclarationAsVariable s_x))].
+Proof. vc. Qed.
+
+(* MainIsMissing: the empty range at the end of the first token `proc` *)
+Definition d8 : aprog := {| a_decls := [p_p]; a_ceof := c0 |}.
+Definition d8_tree : program := Eval vm_compute in expected d8.
+Definition d8_table : gtable := Eval vm_compute in table_of d8_tree.
+Example C03_ex_main_is_missing : decl_fault_program d8_tree d8_table [mkerr_t (0%nat, 0%nat) (EBuild MainIsMissing)].
+Proof. eapply DF_main_missing; [unfold d8_tree; cbn [pg_decls]; decls | vc | vc | bodies]. Qed.
+Example C03_ex_main_is_missing_text : diag_of "proc p() { }" = Done [(4, 4, EBuild MainIsMissing)].
+Proof. vc. Qed.
+
+(* MainIsNotAProcedure: without a procedure main (MainIsMissing as well), and next to one (one diagnostic) *)
+Definition d9 : aprog := {| a_decls := [DType c0 c0 s_main c0 t_int c0]; a_ceof := c0 |}.
+Definition d9_tree : program := Eval vm_compute in expected d9.
+Definition d9_table : gtable := Eval vm_compute in table_of d9_tree.
+Example C03_ex_main_is_not_a_procedure :
+  decl_fault_program d9_tree d9_table [mkerr_t (0%nat, 0%nat) (EBuild MainIsMissing); er 1 2 MainIsNotAProcedure].
+Proof.
+  eapply (DF_main_type _ _ [] _ 0%nat [] _ _ (x_ident 1 [] s_main));
+    [reflexivity | decls | reflexivity | reflexivity | reflexivity | den | vd | decls | vc | vc | bodies].
+Qed.
+Example C03_ex_main_is_not_a_procedure_text :
+  diag_of "type main = int;" = Done [(4, 4, EBuild MainIsMissing); (5, 9, EBuild MainIsNotAProcedure)].
+Proof. vc. Qed.
+Definition d9b : aprog := {| a_decls := [p_main; DType c0 c0 s_main c0 t_int c0]; a_ceof := c0 |}.
+Definition d9b_tree : program := Eval vm_compute in expected d9b.
+Definition d9b_table : gtable := Eval vm_compute in table_of d9b_tree.
+Example C03_ex_main_is_not_a_procedure_only : decl_fault_program d9b_tree d9b_table [er 7 8 MainIsNotAProcedure].
+Proof.
+  eapply (DF_decl_eq _ _ [_]); [reflexivity | decls | ..].
+  { eapply FG_type_main; [reflexivity | reflexivity | reflexivity | den | vd]. }
+  all: df_rest.
+Qed.
+Example C03_ex_main_is_not_a_procedure_only_text :
+  diag_of "proc main() { } type main = int;" = Done [(21, 25, EBuild MainIsNotAProcedure)].
+Proof. vc. Qed.
+
+(* MainMustNotHaveParameters (the text is C03_ex_text_fault_main above, with t for v) *)
+Definition d10 : aprog :=
+  {| a_decls := [DType c0 c0 s_v c0 t_int c0; DProc c0 c0 s_main c0 (Some (PVal c0 s_a c0 (TName c0 s_v), [])) c0 c0 [] SNil c0];
+     a_ceof := c0 |}.
+Definition d10_tree : program := Eval vm_compute in expected d10.
+Definition d10_table : gtable := Eval vm_compute in table_of d10_tree.
+Example C03_ex_main_must_not_have_parameters : decl_fault_program d10_tree d10_table [er 6 7 MainMustNotHaveParameters].
+Proof.
+  eapply (DF_main_params _ _ [_] _ 5%nat [] _ (x_ident 1 [] s_main));
+    [reflexivity | reflexivity | reflexivity | discriminate | reflexivity | vd
+     | unfold d10_tree; cbn [pg_decls]; decls | vc | bodies].
+Qed.
+
+(* the examples are instances of the statement: `declaration_fault` holds of them *)
+Example C03_ex_declaration_fault : declaration_fault d6 (EBuild (RedeclarationAsParameter s_a)) (7%nat, 8%nat).
+Proof. exists d6_table, (er 7 8 (RedeclarationAsParameter s_a)). repeat split; [exact C03_ex_redeclaration_as_parameter | exact (le_n 8)]. Qed.
